@@ -23,6 +23,12 @@ one left the trial in.  All algebraic clauses are judged per layer on these
 records: "what did the wrapper ask of the experimenter it wraps, and what did
 it make of the answer" -- which holds for every stacking order and also
 through layers whose output is not predictable (noise, normalisation).
+
+Known findings of the unchanged tree that would blind the search are steered
+around (KNOWN_AVOID; counted in classes `avoided_known:*` / `shielded_known:*`).
+case['noavoid'] = [flag, ...] switches the avoidance off for one case (pinned
+replays, the `bases` enumeration, ~4 % of the generated stacks);
+VERIF_C20_NOAVOID=1 switches it off globally (to validate a fixed tree).
 """
 import copy
 import functools
@@ -392,8 +398,6 @@ def _bbob_probe(name, dim, seed):
       _BBOB_BROKEN[key] = None
     except TypeError as e:
       _BBOB_BROKEN[key] = 'scalar' if 'array' in str(e) else 'other'
-    except ZeroDivisionError:
-      _BBOB_BROKEN[key] = 'dim1' if dim == 1 else 'other'
     except Exception:  # pylint: disable=broad-except
       _BBOB_BROKEN[key] = 'other'
   return _BBOB_BROKEN[key]
@@ -865,15 +869,10 @@ def permute_sweep(b, out, ctx):
   """All feasible values of every permuted parameter: image == feasible set."""
   from vizier import pyvizier as vz
   child = b.children[0]
-  if not b.probe.records and b.probe is not None:
-    pass
-  base = None
-  if b.probe is not None and b.probe.records:
-    base = b.probe.records[0]['in']
-  elif b.info.get('top_point') is not None:
-    base = b.info['top_point']
-  if base is None:
+  if b.probe is None or not b.probe.records:
     return
+  # a point of this layer's own space: what its caller handed to it
+  base = b.probe.records[0]['in']
   for n, fv in b.info['permuted'].items():
     if len(fv) > 16:
       continue
